@@ -287,6 +287,14 @@ def make_probe_data(seed: int, ev: Events, *, is_async: bool = False, tape=None,
                 return 0
 
         tp = tape if tape is not None else _Tape0()
-        data.update(af1=af1, af2=af2, ag1=ag1,
+        import types
+
+        @types.coroutine
+        def gc1(x=0):
+            ev.ev("gcoro")
+            yield from asyncio.sleep(delay()).__await__()
+            return W.f1(x) + 3
+
+        data.update(gc1=gc1, af1=af1, af2=af2, ag1=ag1,
                     ai1=AIter(items, ev, tp, gate_stream), ai2=AIter(list(base["ld"]), ev, tp, gate_stream))
     return data
